@@ -70,7 +70,7 @@ UNI_RANGES = [("\x7f", "\x80"), ("a", "é"), ("à", "ÿ"), ("Ā", "߿"), ("ࠀ",
 CHECK_FNS = ["chk0", "chk1", "chk2", "chk3"]
 CCHECK_FNS = ["cchk0", "cchk1"]
 EXTERNS = [("ext_ident", None), ("ext_two", None), ("ext_num", ["vfrt", "vfu", "XNum"]), ("ext_cond", None),
-           ("ext_zero", None)]
+           ("ext_zero", None), ("ext_nested", None)]
 
 
 class Gen:
@@ -283,7 +283,9 @@ class Gen:
         self.cur = nm
         self.cur_i = i
         self.used_fields = []
-        if kind in ("struct",):
+        if kind in ("struct",) and i > 0 and self.coin(0.12):
+            body = Cho([Seq([self.ref("named", False) if self.coin(0.6) else self.lit_nonempty()])])  # a single inline element
+        elif kind in ("struct",):
             body = self.cho(p["depth"] + (3 if self.coin(0.04) else 0), "named", consumed=False)
             if i == 0:
                 if lr_cluster and self.coin(0.9):
@@ -406,6 +408,10 @@ class Gen:
             return Neg(inner) if self.coin(0.6) else Pos(inner)
         if x < 0.84 + p["p_lookahead"] + p["p_include"]:
             cands = [nm for nm in self.names[self.cur_i + 1:] if self.kinds[nm] in ("struct", "unit", "string")]
+            if cands and mode != "none" and self.coin(0.25):
+                # the include alone inside brackets: [>R]  {>R}+  ([>R])
+                inc = Inc(r.choice(cands))
+                return r.choice([Opt(Cho([Seq([inc])])), Opt(Cho([Seq([Grp(Cho([Seq([inc])]))])])), Clo(Cho([Seq([Lit("a"), inc])]), self.coin(0.5)), Grp(Cho([Seq([inc])]))])
             if mode == "none":
                 cands = [nm for nm in cands if self.kinds[nm] in ("unit", "string")]
             if cands:
